@@ -5,8 +5,8 @@ use educe::Educe;
 use core::cmp::Ordering;
 #[derive(Educe)]
 #[educe(Hash)]
-pub enum T { None(A<0>, #[educe(Hash(method = "m_hash"))] A<0>) }
-pub fn values() -> Vec<T> { vec![T::None(A(0), A(0)), T::None(A(0), A(1)), T::None(A(0), A(7)), T::None(A(1), A(0)), T::None(A(1), A(1)), T::None(A(1), A(7)), T::None(A(7), A(0)), T::None(A(7), A(1)), T::None(A(7), A(7))] }
-pub fn show(x: &T) -> String { #[allow(unused_variables)] match x { T::None(p0, p1) => format!("None({},{})", sv(p0), sv(p1)) } }
-pub fn o_hash(x: &T) -> Vec<String> { let mut e = Rec::default(); match x { T::None(p0, p1) => { ::core::hash::Hash::hash(&0usize, &mut e); ::core::hash::Hash::hash(p0, &mut e); m_hash(p1, &mut e); } } e.0 }
+pub enum T { Zed { #[educe(Hash(method = m_hash))] a: A<0>, source: A<0> } }
+pub fn values() -> Vec<T> { vec![T::Zed { a: A(0), source: A(0) }, T::Zed { a: A(0), source: A(1) }, T::Zed { a: A(0), source: A(7) }, T::Zed { a: A(1), source: A(0) }, T::Zed { a: A(1), source: A(1) }, T::Zed { a: A(1), source: A(7) }, T::Zed { a: A(7), source: A(0) }, T::Zed { a: A(7), source: A(1) }, T::Zed { a: A(7), source: A(7) }] }
+pub fn show(x: &T) -> String { #[allow(unused_variables)] match x { T::Zed { a: p0, source: p1 } => format!("Zed({},{})", sv(p0), sv(p1)) } }
+pub fn o_hash(x: &T) -> Vec<String> { let mut e = Rec::default(); match x { T::Zed { a: p0, source: p1 } => { ::core::hash::Hash::hash(&0usize, &mut e); m_hash(p0, &mut e); ::core::hash::Hash::hash(p1, &mut e); } } e.0 }
 pub fn run(out: &mut Out) { let vs = values(); for a in &vs { let mut g = Rec::default(); ::core::hash::Hash::hash(a, &mut g); let e = o_hash(a); out.check(g.0 == e, "hash_16", "hash", || format!("hash({}) fed {:?} expected {:?}", show(a), g.0, e)); } }
